@@ -8,6 +8,7 @@ From TL Require Import Model.DryBase Model.DryPipe Gen.DryGen Model.Dry.
 From TL Require Import Model.SrpTypes Gen.SrpGen Model.SrpSpec Model.Srp.
 From TL Require Import Gen.EditGen Model.EditRun Actual.SrpActual Actual.EditActual.
 From TL Require Import Proofs.EditList Proofs.EditIgnore Proofs.EditLines Proofs.EditDry Proofs.EditSrp Proofs.EditFacts Proofs.EditMain Proofs.EditFixed Proofs.EditDryB.
+From TL Require Import Model.DryFilter Model.EditFilter Proofs.EditFilterP.
 
 (* ------------------------------------------------------------------ 1. suppression decisions (Model/Ignore.v) *)
 (* For EVERY quirk vector of the shared suppression parser, every file, every violation line and rule: inserting a
@@ -188,6 +189,80 @@ Theorem C13_dry_insert_example :
   = [(0, 2, 4); (1, 2, 3)].
 Proof. exact EditDryB.dry_model_insert_example. Qed.
 Print Assumptions C13_dry_insert_example.
+
+(* --- the block filters (Model/EditFilter.v: KeywordArgumentFilter, ImportGroupFilter, LoggerCallFilter, ExceptionReraiseFilter and
+   the registry's `any`), which decide on the RAW lines start..end of a candidate block whether the block is stored at all --- *)
+(* the lines of the block after a line was inserted before index k of the file: unchanged, or the new line strictly inside *)
+Theorem C13_dry_filter_slice : forall raw s e k x, 1 <= s -> s <= e -> e <= List.length raw ->
+  slice_lines (ins k x raw) (shift_ins k s) (shift_ins k e)
+  = if (s <=? k) && (k <? e) then ins (k - (s - 1)) x (slice_lines raw s e) else slice_lines raw s e.
+Proof. exact EditFilterP.slice_ins. Qed.
+Print Assumptions C13_dry_filter_slice.
+
+(* with the two line-counting defects off (for a blank line: the keyword-argument one alone), for any matcher of the logger
+   pattern, every file, every block that starts and ends on code lines and every position k: a blank or comment-only line
+   changes the decision of NO filter (Call spans renumbered: parser oracle) *)
+Theorem C13_dry_filters_insert : forall q marker lm raw calls s e k x,
+  f_kwarg_raw_lines q = false -> (f_reraise_counts_comments q = false \/ EditFilterP.blank x = true) ->
+  skippable marker x = true -> block_ok marker raw s e = true ->
+  decisions q marker lm (ins k x raw) (calls_ins k calls) (shift_ins k s) (shift_ins k e) = decisions q marker lm raw calls s e.
+Proof. exact EditFilterP.decisions_insert. Qed.
+Print Assumptions C13_dry_filters_insert.
+
+Theorem C13_dry_registry_insert : forall q marker lm raw calls s e k x,
+  f_kwarg_raw_lines q = false -> (f_reraise_counts_comments q = false \/ EditFilterP.blank x = true) ->
+  skippable marker x = true -> block_ok marker raw s e = true ->
+  registry q marker lm (ins k x raw) (calls_ins k calls) (shift_ins k s) (shift_ins k e) = registry q marker lm raw calls s e.
+Proof. exact EditFilterP.registry_insert. Qed.
+Print Assumptions C13_dry_registry_insert.
+
+(* confinement of the defects, for EVERY quirk vector: (a) a new line of ANY kind outside the block changes nothing; (b) the import
+   and the logger filter never see a new line inside a block that starts and ends on code lines; (c) a blank line never disturbs
+   the except / raise filter - so only the keyword-argument share (blank and comment) and the except / raise pair (comment) deviate *)
+Theorem C13_dry_filters_insert_outside : forall q marker lm raw calls s e k x,
+  1 <= s -> s <= e -> e <= List.length raw -> (k < s \/ e <= k) ->
+  decisions q marker lm (ins k x raw) (calls_ins k calls) (shift_ins k s) (shift_ins k e) = decisions q marker lm raw calls s e.
+Proof. exact EditFilterP.decisions_insert_outside. Qed.
+Print Assumptions C13_dry_filters_insert_outside.
+
+Theorem C13_dry_import_logger_insert : forall marker lm ls j x, 2 <= List.length ls -> ends_code marker ls = true ->
+  import_on (ins j x ls) = import_on ls /\ logger_on lm (ins j x ls) = logger_on lm ls.
+Proof. exact EditFilterP.import_logger_insert. Qed.
+Print Assumptions C13_dry_import_logger_insert.
+
+Theorem C13_dry_reraise_blank_insert : forall q marker ls j x, EditFilterP.blank x = true ->
+  reraise_on q marker (ins j x ls) = reraise_on q marker ls.
+Proof. exact EditFilterP.reraise_blank_insert. Qed.
+Print Assumptions C13_dry_reraise_blank_insert.
+
+(* trailing white space / CR / re-indentation of ANY lines (str.strip() of every line unchanged): no decision changes once the
+   pattern's `.+` may not be satisfied by trailing white space; re-indentation alone changes none under EVERY vector *)
+Theorem C13_dry_filters_ws_variant : forall q marker lm raw raw' calls s e, f_kwarg_trailing_ws q = false ->
+  Forall2 EditFilterP.ws_var raw raw' -> decisions q marker lm raw calls s e = decisions q marker lm raw' calls s e.
+Proof. exact EditFilterP.decisions_ws_variant. Qed.
+Print Assumptions C13_dry_filters_ws_variant.
+
+Theorem C13_dry_filters_reindent : forall q marker lm raw raw' calls s e, Forall2 EditFilterP.reindented raw raw' ->
+  decisions q marker lm raw calls s e = decisions q marker lm raw' calls s e.
+Proof. exact EditFilterP.decisions_reindent. Qed.
+Print Assumptions C13_dry_filters_reindent.
+
+(* the literals the statements rest on, and the tie of the keyword-argument filter to C03's model of it *)
+Theorem C13_dry_filter_literals :
+  flt_logger_cmp = CEq /\ flt_logger_count = 1 /\ flt_reraise_cmp = CNe /\ flt_reraise_count = 2 /\
+  flt_registry = ["keyword_argument_filter"; "import_group_filter"; "logger_call_filter"; "exception_reraise_filter"] /\
+  (forall a b s e, dry_call_contains a b s e = call_contains_ref a b s e).
+Proof. exact EditFilterP.gen_filter_facts. Qed.
+Print Assumptions C13_dry_filter_literals.
+
+Theorem C13_dry_kwarg_filter_is_c03 : forall raw calls s e,
+  filter_on fq_actual "#" logger_match (slice_lines raw s e) calls s e "keyword_argument_filter" = model_kwarg_filter raw calls s e.
+Proof. exact EditFilterP.kwarg_is_c03. Qed.
+Print Assumptions C13_dry_kwarg_filter_is_c03.
+
+Example C13_dry_filters_example : block_ok "#" EditFilterP.kw_file 2 5 = true /\ skippable "#" "    # the defaults" = true /\
+  decisions EditFilterP.fq_ideal "#" logger_match EditFilterP.kw_file [(1, 6)] 2 5 = [true; false; false; false].
+Proof. exact EditFilterP.block_ok_example. Qed.
 
 (* the reported line count end - start + 1 is unchanged by insertions outside the block *)
 Theorem C13_dry_span_outside : forall s e k, (k < s \/ e <= k) ->
